@@ -592,21 +592,31 @@ class Interp:
             out = []
             seen = set()
             variants = self.f.adts[adt]["variants"]
+            excl = st.known.get(("excl", cur), frozenset())
             for a, b in targets:
                 var = next((x for x in variants if int(x["discr"]) == a), None)
                 if var is None:
                     continue
                 seen.add(var["name"])
+                if var["name"] in excl:
+                    continue        # ruled out by an earlier catch-all arm on the same value
                 s2 = st.fork()
                 self.refine(s2, ptr, cur, adt, var)
                 out.append((s2, b))
             if not self.block_unreachable(body, otherwise):
-                for var in variants:
-                    if var["name"] in seen:
-                        continue
+                rest = [var for var in variants if var["name"] not in seen and var["name"] not in excl]
+                if len(rest) > 12:
+                    # a catch-all arm over a large enum (`matches!(e, Expr::Value(..))` on a node with 47 kinds): one
+                    # path "none of the tested kinds" instead of one per remaining kind
                     s2 = st.fork()
-                    self.refine(s2, ptr, cur, adt, var)
+                    s2.conds.append((self.resolve(s2, cur), "is_not", ",".join(sorted(seen | excl))))
+                    s2.known[("excl", cur)] = frozenset(seen | excl)
                     out.append((s2, otherwise))
+                else:
+                    for var in rest:
+                        s2 = st.fork()
+                        self.refine(s2, ptr, cur, adt, var)
+                        out.append((s2, otherwise))
             return out
         if v[0] == "const":
             x = v[2]
